@@ -28,9 +28,13 @@ def showLst (l : List String) : String := if l.isEmpty then "-" else String.inte
 def bit? : String → Option Bool
   | "1" => some true | "0" => some false | _ => none
 def showBit (b : Bool) : String := if b then "1" else "0"
-/-- crontab tokens carry `␣` for a blank -/
-def cron (s : String) : String := if s == "_" then "" else String.ofList (s.toList.map (fun c => if c == '␣' then ' ' else c))
-def showCron (s : String) : String := if s == "" then "_" else String.ofList (s.toList.map (fun c => if c == ' ' then '␣' else c))
+/-- crontab tokens carry `␣` for a blank, `⇥` for a tab, `↵` for a newline, `↩` for a carriage return -/
+def cronChar (c : Char) : Char :=
+  if c == '␣' then ' ' else if c == '⇥' then '\t' else if c == '↵' then '\n' else if c == '↩' then '\r' else c
+def showCronChar (c : Char) : Char :=
+  if c == ' ' then '␣' else if c == '\t' then '⇥' else if c == '\n' then '↵' else if c == '\r' then '↩' else c
+def cron (s : String) : String := if s == "_" then "" else String.ofList (s.toList.map cronChar)
+def showCron (s : String) : String := if s == "" then "_" else String.ofList (s.toList.map showCronChar)
 def optStr (s : String) : Option String := if s == "~" then none else some (str s)
 
 def get (k : String) (toks : List String) : Option String := kv? k toks
@@ -300,6 +304,15 @@ def step (st : St) (toks : List String) : St × String :=
     if !Spec.effIncludesOK st.seen then (st, "false an effective includeSnapshotsFrom name is unknown or ambiguous")
     else if !groupsServed st.seen then (st, "false a binding of a group misses a kubernetes binding of the group")
     else (st, "true")
+  | ["oracle", "schedusable", _, c, k] =>
+    -- "bad crontabs are rejected", read on the EFFECTIVE configuration the implementation showed
+    -- (`Spec.goodCrontab`, theorem `loaded_crontabs_good`): the crontab text a loaded schedule carries is
+    -- what the schedule manager hands to the cron library; `cok` is that library's verdict on this very text
+    match kv? "c" [c], (kv? "cok" [k]).bind bit? with
+    | some c, some ok =>
+      if Spec.goodCrontab (cron c) ok then (st, "true")
+      else (st, "false the loaded configuration carries a crontab the scheduler cannot parse (a bad crontab was not rejected)")
+    | _, _ => (st, "bad-op")
   | ["oracle", "verdict", o] =>
     -- the "rejected" clause on the DECLARED document (`Spec.mustReject`, theorem `rejects_spec`) against the
     -- verdict the implementation showed: a document with a bad crontab, an invalid selector (object or
